@@ -684,10 +684,12 @@ CTOR_FORMS = {
     'quaternion:UnitQuaternion.__init__': ('UnitQuaternion', [('4-vector as list', vec(4, 'list')), ('4-vector as ndarray(4)', vec(4, 'ndarray')),
                                                               ('SO(3) matrix', sq(3)), ('SE(3) matrix', sq(4)), ('Nx4 ndarray', rows(4, 'ndarray'))]),
     'quaternion:Quaternion.__init__': ('Quaternion', [('4-vector as list', vec(4, 'list')), ('4-vector as ndarray(4)', vec(4, 'ndarray'))]),
+    # a third element names the OTHER parameters that are given in this form (all remaining None-default parameters are None)
     'pose3d:SE3.__init__': ('SE3', [('translation as list', vec(3, 'list')), ('translation as ndarray(3)', vec(3, 'ndarray')), ('SE(3) matrix', sq(4)),
-                                    ('Nx3 ndarray', rows(3, 'ndarray'))]),
+                                    ('Nx3 ndarray', rows(3, 'ndarray')), ('x, y, z as separate scalars', SCALAR, ('y', 'z'))]),
     'pose2d:SE2.__init__': ('SE2', [('[x, y] as list', vec(2, 'list')), ('[x, y] as ndarray', vec(2, 'ndarray')), ('[x, y, theta] as list', vec(3, 'list')),
-                                    ('[x, y, theta] as ndarray', vec(3, 'ndarray')), ('SE(2) matrix', sq(3)), ('angle', SCALAR)]),
+                                    ('[x, y, theta] as ndarray', vec(3, 'ndarray')), ('SE(2) matrix', sq(3)), ('angle', SCALAR),
+                                    ('x, y as separate scalars', SCALAR, ('y',)), ('x, y, theta as separate scalars', SCALAR, ('y', 'theta'))]),
     'pose2d:SO2.__init__': ('SO2', [('angle', SCALAR), ('angles as list', vec(5, 'list')), ('angles as ndarray', vec(5, 'ndarray')), ('SO(2) matrix', sq(2))]),
 }
 
@@ -707,13 +709,48 @@ def check_ctor_forms(run, rule='R21'):
         nones = {p for p, d in f.defaults().items() if isinstance(d, ast.Constant) and d.value is None and p != S}
         flags = {p: d.value for p, d in f.defaults().items() if isinstance(d, ast.Constant) and isinstance(d.value, bool) and p not in ('check', 'norm')}
         shape = _class_shape(prog, prog.cls(cn))
-        for (label, val) in forms:
+        all_nones = nones
+        for form in forms:
+            label, val = form[0], form[1]
+            given = set(form[2]) if len(form) > 2 else set()
+            if not given <= set(ps):
+                run.error('R21: %s: the form "%s" names parameters %s that the constructor does not have (anchor not found in the current source)' % (
+                    key, label, sorted(given - set(ps))))
+                continue
+            nones = all_nones - given
             out = []
             _explore(fi, body_nodoc(f.node), S, val, nones, flags, shape, out)
             n += 1
             construct = 'constructor form: ' + label
             faults = [x for x in out if x[0] == 'fault']
             stores = [x for x in out if x[0] == 'store']
+            # a value stored for this form must not be computed from a parameter that is None in this form
+            from_none = []
+            for (_, st_) in stores:
+                if isinstance(st_, ast.Assign):
+                    used = {x.id for x in ast.walk(st_.value) if isinstance(x, ast.Name) and isinstance(x.ctx, ast.Load)}
+                    bad_ = sorted(used & nones)
+                    if bad_:
+                        from_none.append((st_, bad_))
+            # ... and uses every parameter that IS given in this form
+            unused = []
+            if given and stores and not from_none:
+                for (_, st_) in stores:
+                    if isinstance(st_, ast.Assign):
+                        used = {x.id for x in ast.walk(st_.value) if isinstance(x, ast.Name) and isinstance(x.ctx, ast.Load)}
+                        miss = sorted((given | {S}) - used)
+                        if miss:
+                            unused.append((st_, miss))
+            if from_none and len(from_none) == len([x for x in stores if isinstance(x[1], ast.Assign)]):
+                st_, bad_ = from_none[0]
+                run.violation(rule, key, construct, 'for the documented form "%s" the value stored (%s) is computed from the parameter %s, which is None in this '
+                              'form: the constructor fails (or builds a wrong value) for a documented call' % (label, src(st_.value, 50), '/'.join(bad_)), f=f, node=st_)
+                continue
+            if unused and len(unused) == len([x for x in stores if isinstance(x[1], ast.Assign)]):
+                st_, miss = unused[0]
+                run.violation(rule, key, construct, 'for the documented form "%s" the value stored (%s) does not use the given argument %s' % (
+                    label, src(st_.value, 50), '/'.join(miss)), f=f, node=st_)
+                continue
             if faults:
                 node = faults[0][1]
                 run.violation(rule, key, construct, 'for the documented form "%s" the guard `%s` is reached (when the validating branch declines the value) '
